@@ -91,6 +91,10 @@ def save_xye(
     to_save = np.c_[da.coords[coord].values, da.values, np.sqrt(da.variances)]
     if header is GenerateHeader:
         header = _generate_xye_header(da, coord)
+    # np.savetxt only prefixes header lines that end in '\n' with the comment marker,
+    # but text-mode readers also end a line at a carriage return.
+    # The rest of such a line would be read as part of the table.
+    header = header.replace('\r\n', '\n').replace('\r', '\n')
 
     get_logger().info(
         "Saving data with unit %s and coordinate '%s' to XYE file %s",
